@@ -872,8 +872,12 @@ func populateVerificationMethod(context, didID, baseURI string,
 
 		if strings.HasPrefix(id, "#") {
 			id = resolveRelativeDIDURL(didID, baseURI, id)
-			split := strings.Split(id, "#")
-			controller = split[0]
+
+			// a declared controller is kept as it is; only a missing one defaults to the base of the resolved id.
+			if controller == "" {
+				controller = strings.Split(id, "#")[0]
+			}
+
 			isRelative = true
 		}
 
